@@ -236,6 +236,10 @@ async def put_ports(request: core_api.APIRequest, params: GenericJSONList) -> No
         for port in core_ports.get_all():
             await port.reset()
 
+            # The expression (and the sequence) of a port that remains belongs to the configuration being replaced; left
+            # in place, it could close a dependency loop with an expression being restored and get a valid entry refused
+            await port.set_attr('expression', '')
+
         add_port_schema = dict(core_api_schema.POST_PORTS)
         add_port_schema['additionalProperties'] = True
 
